@@ -918,7 +918,30 @@ pub fn run(out: &mut dyn Write, prop: &str, seed: u64, thorough: bool) -> std::i
     match prop {
         "C01" => {
             let t = collects(&mut rng);
-            go(out, &mut rng, "collect", &base(t), n(1500, 20000))?;
+            go(out, &mut rng, "collect", &base(t.clone()), n(1500, 20000))?;
+            // every branch of the collect dispatch (target kind x length known/unknown x map-only /
+            // filtering) with interleaved workers: round-robin schedules under the scheduler
+            for kinds in ["M", "MM", "F", "MF", "X", "P"] {
+                for src_kind in ['v', 'k', 'u'] {
+                    for term in t.iter() {
+                        for _ in 0..n(4, 20) {
+                            let ops: Vec<OpD> = kinds.chars().map(|k| gen_op(&mut rng, k)).collect();
+                            let len = rng.range(6, 40) as usize;
+                            let input = gen_input(&mut rng, len, true);
+                            let nt = rng.range(2, 5) as usize;
+                            let mut sets = vec![vec![]; ops.len() + 1];
+                            sets[0] = vec![SetD::NtUsize(nt), SetD::CsUsize(rng.range(1, 3) as usize)];
+                            let mut sch: Vec<u32> = vec![0; 3 * nt + 6];
+                            for i in 0..(4 * len + 20) {
+                                sch.push(if rng.chance(1, 5) { rng.range(1, nt as u64) as u32 } else { (i % nt) as u32 + 1 });
+                            }
+                            let c = Case { src_kind, input, ops, sets, term: term.clone(), mode: Mode::Ctl(sch), panic_at: None };
+                            emit_case(out, "dispatch-branches", &c, false)?;
+                            total_c.set(total_c.get() + 1);
+                        }
+                    }
+                }
+            }
         }
         "C02" => {
             let mut t = vec![TermD::First, TermD::FirstIdx];
